@@ -5,9 +5,12 @@ open TdModel
 
 /-! ### facts as used by the proofs -/
 
-theorem isEnd_eq (d : Bytes) : isEnd d = decide (d.length < 1) := by simp [isEnd, Facts.C33.emptyStops]
+theorem isEnd_eq (d : Bytes) : isEnd d = decide (d.length < 1) := by simp [isEnd, isEndN, Facts.C33.emptyStops]
+theorem isEndN_eq (n : Nat) : isEndN n = decide (n < 1) := by simp [isEndN, Facts.C33.emptyStops]
+theorem isLastN_eq (n ps : Nat) : isLastN n ps = decide (n < ps) := by simp [isLastN, Facts.C33.lastIsShorter]
+theorem blockTag_eq (d : Bytes) (t : Nat) : blockTag d t = some t := by simp [blockTag, Facts.C33.nextReturnsChunkAsIs]
 theorem isLast_eq (d : Bytes) (ps : Nat) : isLast d ps = decide (d.length < ps) := by
-  simp [isLast, Facts.C33.lastIsShorter]
+  simp [isLast, isLastN, Facts.C33.lastIsShorter]
 theorem offsetOf_eq (k ps : Nat) : offsetOf k ps = k * ps := by simp [offsetOf, Facts.C33.allocStepIsPartSize]
 theorem wbl : Facts.C33.writeBeforeLastCheck = true := rfl
 
@@ -17,17 +20,19 @@ theorem fileServer_len (file : Bytes) (off ps : Nat) :
 
 /-! ### stream -/
 
-theorem stream_exact_gen (file : Bytes) (ps : Nat) (hps : 0 < ps) :
+theorem stream_exact_gen (file : Bytes) (tag : Nat → Nat) (T : Nat) (htag : ∀ off, tag off = T)
+    (ps : Nat) (hps : 0 < ps) :
     ∀ (fuel k : Nat), (file.drop (k * ps)).length < fuel →
-      (stream (fileServer file) ps fuel k).writes.flatten = file.drop (k * ps) ∧
-      (stream (fileServer file) ps fuel k).done = true := by
+      (stream (fileServer file) tag ps fuel k).writes.flatten = file.drop (k * ps) ∧
+      (stream (fileServer file) tag ps fuel k).done = true ∧
+      (stream (fileServer file) tag ps fuel k).typ = some T := by
   intro fuel
   induction fuel with
   | zero => intro k h; omega
   | succ fuel ih =>
     intro k h
     rw [stream]
-    simp only [offsetOf_eq, isEnd_eq, isLast_eq, wbl, if_true]
+    simp only [offsetOf_eq, isEnd_eq, isLast_eq, wbl, if_true, blockTag_eq, htag]
     have hlen := fileServer_len file (k * ps) ps
     by_cases h1 : (fileServer file (k * ps) ps).length < 1
     · simp only [h1, decide_true, if_true, List.flatten_nil, and_true]
@@ -47,7 +52,7 @@ theorem stream_exact_gen (file : Bytes) (ps : Nat) (hps : 0 < ps) :
         have := ih (k + 1) (by
           simp only [List.length_drop] at h ⊢
           rw [hk]; omega)
-        refine ⟨?_, this.2⟩
+        refine ⟨?_, this.2.1, this.2.2⟩
         rw [this.1, hk, ← List.drop_drop]
         unfold fileServer
         exact List.take_append_drop ps _
@@ -71,14 +76,23 @@ structure PInv (file : Bytes) (ps : Nat) (s : PState) : Prop where
           (((List.range s.k).filter (live file ps)).map (blk file ps))
   stop : s.stopped = true → file.length ≤ s.k * ps
 
+/-- The reported type: once `stop` was called the stored type is the server's (all answers carry `T`). -/
+structure TInv (T : Nat) (s : PState) : Prop where
+  set : s.stopped = true → s.typSet = true
+  typ : s.typSet = true → s.typ = some T
+
 theorem live_eq (file : Bytes) (ps i : Nat) : live file ps i = decide (i * ps < file.length) := by
   simp [live, offsetOf_eq]
 
 theorem pinv_init (file : Bytes) (ps : Nat) : PInv file ps {} :=
   ⟨by intro i h; simp at h, by simp, by intro h; simp at h⟩
 
-theorem pinv_step (file : Bytes) (ps : Nat) (hps : 0 < ps) (s s' : PState) (a : PAct)
-    (hinv : PInv file ps s) (hstep : pstep (fileServer file) ps s a = some s') : PInv file ps s' := by
+theorem stop_fields (s : PState) (t : Option Nat) :
+    (s.stop t).k = s.k ∧ (s.stop t).held = s.held ∧ (s.stop t).writes = s.writes ∧ (s.stop t).stopped = true := by
+  simp [PState.stop]
+
+theorem pinv_step (file : Bytes) (tag : Nat → Nat) (ps : Nat) (hps : 0 < ps) (s s' : PState) (a : PAct)
+    (hinv : PInv file ps s) (hstep : pstep (fileServer file) tag ps s a = some s') : PInv file ps s' := by
   cases a with
   | alloc =>
     simp only [pstep, Option.some.injEq] at hstep
@@ -118,43 +132,110 @@ theorem pinv_step (file : Bytes) (ps : Nat) (hps : 0 < ps) (s s' : PState) (a : 
         have hnl : live file ps i = false := by
           rw [live_eq]; simp only [decide_eq_false_iff_not]; omega
         refine ⟨?_, ?_, ?_⟩
-        · intro j hj; exact hinv.held_lt j (List.mem_of_mem_erase hj)
-        · simp only [filter_erase_of_not _ _ hnl]; exact hinv.perm
-        · intro _; simp only; omega
+        · intro j hj
+          simp only [PState.stop] at hj ⊢
+          exact hinv.held_lt j (List.mem_of_mem_erase hj)
+        · simp only [PState.stop, filter_erase_of_not _ _ hnl]; exact hinv.perm
+        · intro _; simp only [PState.stop]; omega
       · simp only [h1, decide_false, Bool.false_eq_true, if_false, Option.some.injEq] at hstep
-        subst hstep
         have hl : live file ps i = true := by
           rw [live_eq]; simp only [decide_eq_true_eq]; omega
-        refine ⟨?_, ?_, ?_⟩
-        · intro j hj; exact hinv.held_lt j (List.mem_of_mem_erase hj)
-        · have hp : s.held.Perm (i :: s.held.erase i) := List.perm_cons_erase hi
-          have hp2 : ((s.held.filter (live file ps)).map (blk file ps)).Perm
-              (blk file ps i :: ((s.held.erase i).filter (live file ps)).map (blk file ps)) := by
-            have := (hp.filter (live file ps)).map (blk file ps)
-            simpa [List.filter_cons, hl] using this
-          have hb : (i * ps, fileServer file (i * ps) ps) = blk file ps i := by simp [blk, offsetOf_eq]
+        have hp : s.held.Perm (i :: s.held.erase i) := List.perm_cons_erase hi
+        have hp2 : ((s.held.filter (live file ps)).map (blk file ps)).Perm
+            (blk file ps i :: ((s.held.erase i).filter (live file ps)).map (blk file ps)) := by
+          have := (hp.filter (live file ps)).map (blk file ps)
+          simpa [List.filter_cons, hl] using this
+        have hb : (i * ps, fileServer file (i * ps) ps) = blk file ps i := by simp [blk, offsetOf_eq]
+        have hperm : ((s.writes ++ [(i * ps, fileServer file (i * ps) ps)]) ++
+            ((s.held.erase i).filter (live file ps)).map (blk file ps)).Perm
+            (((List.range s.k).filter (live file ps)).map (blk file ps)) := by
           simp only [hb, List.append_assoc, List.singleton_append]
           exact ((List.Perm.append_left s.writes hp2).symm).trans hinv.perm
-        · intro hs
-          simp only [Bool.or_eq_true, decide_eq_true_eq] at hs
-          rcases hs with hs | hs
-          · exact hinv.stop hs
-          · simp only; omega
+        by_cases h2 : (fileServer file (i * ps) ps).length < ps
+        · simp only [h2, decide_true, if_true] at hstep
+          subst hstep
+          refine ⟨?_, ?_, ?_⟩
+          · intro j hj
+            simp only [PState.stop] at hj ⊢
+            exact hinv.held_lt j (List.mem_of_mem_erase hj)
+          · simp only [PState.stop]; exact hperm
+          · intro _; simp only [PState.stop]; omega
+        · simp only [h2, decide_false, Bool.false_eq_true, if_false] at hstep
+          subst hstep
+          refine ⟨?_, hperm, ?_⟩
+          · intro j hj; exact hinv.held_lt j (List.mem_of_mem_erase hj)
+          · intro hs; exact hinv.stop hs
     · simp [hi] at hstep
 
-theorem pinv_run (file : Bytes) (ps : Nat) (hps : 0 < ps) : ∀ (acts : List PAct) (s s' : PState),
-    PInv file ps s → prun (fileServer file) ps s acts = some s' → PInv file ps s' := by
+theorem tinv_step (srv : Server) (tag : Nat → Nat) (T : Nat) (htag : ∀ off, tag off = T) (ps : Nat)
+    (s s' : PState) (a : PAct) (hinv : TInv T s) (hstep : pstep srv tag ps s a = some s') : TInv T s' := by
+  have hstop : ∀ (x : PState) (d : Bytes) (o : Nat), x.typSet = s.typSet → x.typ = s.typ →
+      TInv T (x.stop (blockTag d (tag o))) := by
+    intro x d o h1 h2
+    refine ⟨fun _ => by simp [PState.stop], fun _ => ?_⟩
+    simp only [PState.stop, blockTag_eq, htag, h1, h2]
+    cases hts : s.typSet with
+    | true => simp [hinv.typ hts]
+    | false => simp
+  cases a with
+  | alloc =>
+    simp only [pstep, Option.some.injEq] at hstep
+    subst hstep
+    exact ⟨hinv.set, hinv.typ⟩
+  | complete i =>
+    simp only [pstep] at hstep
+    by_cases hi : i ∈ s.held
+    · simp only [hi, if_true] at hstep
+      split at hstep
+      · cases hstep; exact hstop _ _ _ rfl rfl
+      · split at hstep
+        · cases hstep; exact hstop _ _ _ rfl rfl
+        · cases hstep; exact ⟨hinv.set, hinv.typ⟩
+    · simp [hi] at hstep
+
+theorem pinv_run (file : Bytes) (tag : Nat → Nat) (ps : Nat) (hps : 0 < ps) : ∀ (acts : List PAct) (s s' : PState),
+    PInv file ps s → prun (fileServer file) tag ps s acts = some s' → PInv file ps s' := by
   intro acts
   induction acts with
   | nil => intro s s' h hr; simp only [prun, Option.some.injEq] at hr; subst hr; exact h
   | cons a rest ih =>
     intro s s' h hr
     simp only [prun] at hr
-    cases hst : pstep (fileServer file) ps s a with
+    cases hst : pstep (fileServer file) tag ps s a with
     | none => simp [hst] at hr
     | some s1 =>
       simp only [hst] at hr
-      exact ih s1 s' (pinv_step file ps hps s s1 a h hst) hr
+      exact ih s1 s' (pinv_step file tag ps hps s s1 a h hst) hr
+
+theorem tinv_run (srv : Server) (tag : Nat → Nat) (T : Nat) (htag : ∀ off, tag off = T) (ps : Nat) :
+    ∀ (acts : List PAct) (s s' : PState), TInv T s → prun srv tag ps s acts = some s' → TInv T s' := by
+  intro acts
+  induction acts with
+  | nil => intro s s' h hr; simp only [prun, Option.some.injEq] at hr; subst hr; exact h
+  | cons a rest ih =>
+    intro s s' h hr
+    simp only [prun] at hr
+    cases hst : pstep srv tag ps s a with
+    | none => simp [hst] at hr
+    | some s1 =>
+      simp only [hst] at hr
+      exact ih s1 s' (tinv_step srv tag T htag ps s s1 a h hst) hr
+
+/-- `stream` issues exactly the requests computed on lengths. -/
+theorem stream_reqs_eq (file : Bytes) (tag : Nat → Nat) (ps : Nat) : ∀ (fuel k : Nat),
+    (stream (fileServer file) tag ps fuel k).reqs = streamReqs file.length ps fuel k := by
+  intro fuel
+  induction fuel with
+  | zero => intro k; rfl
+  | succ fuel ih =>
+    intro k
+    rw [stream, streamReqs]
+    simp only [isEnd, isLast, fileServer_len]
+    split
+    · rfl
+    · split
+      · rfl
+      · simp only [ih (k + 1)]
 
 /-- Data of the live blocks below `k`, in offset order, is the first `k·ps` bytes of the file. -/
 theorem blocks_concat (file : Bytes) (ps : Nat) : ∀ k,
